@@ -3,7 +3,8 @@
 // Part 1 (histories, engine opseq): every sequence of ≤ d operations over
 // {write m.f as float|integer|string, write m.g, write m2.f, drop measurement m, snapshot, clean
 // close-reopen, kill-restart} on a real tsdb.Shard, compared op by op and at the end with a reference model
-// (measurement,field)→type + accepted data.
+// (measurement,field)→type + accepted data; plus the multi-field levels (points carrying a new field next to a
+// conflicting one, then the new field alone, restart, probe of another type).
 //
 // Part 2 (schedules, engine vsched): two Shard.WritePoints racing to create the same new field with
 // different / equal types, every interleaving with ≤ B preemptions at the sync points of tsdb/shard.go,
@@ -49,6 +50,28 @@ var writeOps = map[string]writeDef{
 	"WS": {"m", "f", "string"},
 	"WG": {"m", "g", "float"},
 	"W2": {"m2", "f", "integer"},
+	// only used by the multi-field families: the fields a and z (sorting before / after f) written alone, with the
+	// type the multi-field points carry (WA, WZ) and with another type (PA, PZ: the probes)
+	"WA": {"m", "a", "float"},
+	"WZ": {"m", "z", "float"},
+	"PA": {"m", "a", "integer"},
+	"PZ": {"m", "z", "integer"},
+}
+
+// multiOps are the writes whose points carry TWO fields of measurement m: f as a string together with a float
+// field that sorts before f (MA: a) or after f (MZ: z). models.Point iterates fields in key order, so with m.f
+// recorded as float or integer the conflict is met after (MA) resp. before (MZ) the other field was looked at.
+var multiOps = map[string][]writeDef{
+	"MA": {{"m", "a", "float"}, {"m", "f", "string"}},
+	"MZ": {{"m", "f", "string"}, {"m", "z", "float"}},
+}
+
+// fieldsOf returns the fields the points of a write op carry (nil for ops that are not writes).
+func fieldsOf(op string) []writeDef {
+	if d, ok := writeOps[op]; ok {
+		return []writeDef{d}
+	}
+	return multiOps[op]
 }
 
 const (
@@ -65,11 +88,14 @@ var coreAlphabet = []string{"WF", "WI", opDrop, opSnapshot, opReopen, opKill}
 const pointsPerWrite = 2
 
 func writeSpecs(op string, k int) []shardkit.PointSpec {
-	d := writeOps[op]
+	ds := fieldsOf(op)
 	var out []shardkit.PointSpec
 	for j := 1; j <= pointsPerWrite; j++ {
-		out = append(out, shardkit.PointSpec{M: d.m, T: int64(100*(k+1) + j),
-			Fields: []shardkit.FieldSpec{{Name: d.f, Type: d.typ, Val: int64(10*(k+1) + j)}}})
+		p := shardkit.PointSpec{M: ds[0].m, T: int64(100*(k+1) + j)}
+		for _, d := range ds {
+			p.Fields = append(p.Fields, shardkit.FieldSpec{Name: d.f, Type: d.typ, Val: int64(10*(k+1) + j)})
+		}
+		out = append(out, p)
 	}
 	return out
 }
@@ -83,28 +109,56 @@ type Model struct {
 	Result []string                     // expected result of every op so far
 	Fate   map[int]string               // write op index → "accepted" | "rejected" | "dropped" (accepted, measurement dropped later)
 	Drops  int                          // effective drops so far (the measurement existed)
-	ops    []string
+	// Maybe: fields that were NEW in a rejected multi-field point, with the type it carried. The statement says the
+	// point is rejected and never stored; it is silent on whether its other, non-conflicting new fields are recorded
+	// by the attempt, so either answer is accepted until an accepted write (or a drop) settles the field.
+	Maybe map[string]map[string]string
+	// Open: some op addressed a Maybe field with ANOTHER type: the statement leaves its result open (the
+	// enumerations skip such histories).
+	Open bool
+	ops  []string
 }
 
 func NewModel() *Model {
-	return &Model{Schema: map[string]map[string]string{}, Data: map[string][]shardkit.Val{}, Fate: map[int]string{}}
+	return &Model{Schema: map[string]map[string]string{}, Data: map[string][]shardkit.Val{}, Fate: map[int]string{}, Maybe: map[string]map[string]string{}}
 }
 
 // Apply executes op number k on the model and returns the expected result: "ok" or "conflict:<dropped>".
 func (m *Model) Apply(op string, k int) string {
 	res := "ok"
-	if d, ok := writeOps[op]; ok {
-		if cur, exists := m.Schema[d.m][d.f]; exists && cur != d.typ {
+	if ds := fieldsOf(op); ds != nil {
+		conflict := false
+		for _, d := range ds {
+			if cur, exists := m.Schema[d.m][d.f]; exists && cur != d.typ {
+				conflict = true
+			} else if mt, maybe := m.Maybe[d.m][d.f]; !exists && maybe && mt != d.typ {
+				m.Open = true
+			}
+		}
+		if conflict {
 			res = fmt.Sprintf("conflict:%d", pointsPerWrite)
 			m.Fate[k] = "rejected"
-		} else {
-			if m.Schema[d.m] == nil {
-				m.Schema[d.m] = map[string]string{}
+			for _, d := range ds { // the other new fields of the rejected points (only multi-field points have any)
+				if _, exists := m.Schema[d.m][d.f]; !exists {
+					if m.Maybe[d.m] == nil {
+						m.Maybe[d.m] = map[string]string{}
+					}
+					m.Maybe[d.m][d.f] = d.typ
+				}
 			}
-			m.Schema[d.m][d.f] = d.typ
+		} else {
+			if m.Schema[d0(ds).m] == nil {
+				m.Schema[d0(ds).m] = map[string]string{}
+			}
+			for _, d := range ds {
+				m.Schema[d.m][d.f] = d.typ
+				delete(m.Maybe[d.m], d.f)
+			}
 			for _, p := range writeSpecs(op, k) {
-				key := shardkit.CompositeKey(p.SeriesKey(), d.f)
-				m.Data[key] = append(m.Data[key], shardkit.Val{T: p.T, V: p.Fields[0].Rendered()})
+				for _, f := range p.Fields {
+					key := shardkit.CompositeKey(p.SeriesKey(), f.Name)
+					m.Data[key] = append(m.Data[key], shardkit.Val{T: p.T, V: f.Rendered()})
+				}
 			}
 			m.Fate[k] = "accepted"
 		}
@@ -113,6 +167,7 @@ func (m *Model) Apply(op string, k int) string {
 			m.Drops++
 		}
 		delete(m.Schema, "m")
+		delete(m.Maybe, "m")
 		for key := range m.Data {
 			if strings.HasPrefix(key, "m#!~#") || strings.HasPrefix(key, "m,") {
 				delete(m.Data, key)
@@ -120,7 +175,7 @@ func (m *Model) Apply(op string, k int) string {
 		}
 		for i, f := range m.Fate {
 			if f == "accepted" && i < k {
-				if d, ok := writeOps[m.opOf(i)]; ok && d.m == "m" {
+				if ds := fieldsOf(m.opOf(i)); ds != nil && ds[0].m == "m" {
 					m.Fate[i] = "dropped"
 				}
 			}
@@ -130,6 +185,8 @@ func (m *Model) Apply(op string, k int) string {
 	m.ops = append(m.ops, op)
 	return res
 }
+
+func d0(ds []writeDef) writeDef { return ds[0] }
 
 func (m *Model) opOf(i int) string {
 	if i < len(m.ops) {
@@ -221,7 +278,7 @@ func WriteHistory(dir string, ops []string, o Options, onOp func(k int, phase, o
 // Mismatch is one disagreement between the real shard and a model.
 type Mismatch struct{ Clause, Msg string }
 
-var universe = []struct{ m, f string }{{"m", "f"}, {"m", "g"}, {"m2", "f"}, {"m2", "g"}}
+var universe = []struct{ m, f string }{{"m", "f"}, {"m", "g"}, {"m2", "f"}, {"m2", "g"}, {"m", "a"}, {"m", "z"}}
 
 // Observe reads the three observations of an open shard.
 type Observation struct {
@@ -285,6 +342,8 @@ func Compare(ob Observation, m *Model) []Mismatch {
 		want, wok := m.Schema[k.m][k.f]
 		got, gok := ob.Schema[k.m][k.f]
 		switch {
+		case !wok && gok && m.Maybe[k.m][k.f] == got:
+			// new field of a rejected multi-field point, recorded with the type that point carried: left open by the statement
 		case wok && !gok:
 			out = append(out, Mismatch{"field-type-lost", fmt.Sprintf("%s.%s should be %s but the shard records no such field", k.m, k.f, want)})
 		case !wok && gok:
@@ -506,7 +565,7 @@ func runHist(h Hist) (rep histReport) {
 		}
 		op := h.Ops[k]
 		ctx := histCtx(h.Ops[:k], h.TypeCheck)
-		if _, isWrite := writeOps[op]; isWrite {
+		if fieldsOf(op) != nil {
 			got := resultKind(r)
 			if got == "conflict" && resultKind(rep.want[k]) == "conflict" {
 				got = "conflict-wrong-count"
@@ -628,6 +687,27 @@ func levels(thorough bool) []level {
 	// the field set non-empty, so the engine does not rebuild it from the stored data at open)
 	mWrites := []string{"WF", "WI", "WS", "WG"}
 	ls = append(ls, level{"other-write-drop-write-kill/len5", [][]string{{"W2"}, mWrites, {opDrop}, mWrites, {opKill}}, false, nil, 1})
+	// multi-field points: m.f exists; a write whose points carry f as a string TOGETHER WITH a new float field sorting
+	// before f (MA: a) or after f (MZ: z) — rejected when m.f is float, accepted when it is a string; then a write that
+	// uses one of the new fields alone (accepted); then {kill-restart, clean restart, snapshot}; then a write of
+	// ANOTHER type to one of the new fields, which must be rejected with Dropped=2 once an accepted write has used the
+	// field. Histories whose last write addresses a field that only a rejected point carried are skipped (the
+	// statement leaves their result open; Model.Open).
+	ls = append(ls, level{"multi-field/len5", [][]string{{"WF", "WS"}, {"MA", "MZ"}, {"WA", "WZ"}, {opKill, opReopen, opSnapshot}, {"PA", "PZ"}}, false, nil, 1})
+	if thorough {
+		// the same heads followed by EVERY sequence of length 1..3 over the new fields' writes and the restarts
+		tail := []string{"WA", "WZ", "PA", "PZ", opKill, opReopen, opSnapshot}
+		for n := 1; n <= 3; n++ {
+			pos := append([][]string{{"WF", "WS"}, {"MA", "MZ"}}, rep(tail, n)...)
+			skip := func(s []string) bool { return false }
+			if n == 3 {
+				skip = func(s []string) bool { // already run by multi-field/len5
+					return in([]string{"WA", "WZ"}, s[2]) && in([]string{opKill, opReopen, opSnapshot}, s[3]) && in([]string{"PA", "PZ"}, s[4])
+				}
+			}
+			ls = append(ls, level{fmt.Sprintf("multi-field/head2+tail%d", n), pos, false, skip, 1})
+		}
+	}
 	if !thorough {
 		core4 := writeFirst(coreAlphabet, 4)
 		return append(ls,
@@ -659,6 +739,12 @@ func runHistories(c *vlib.Ctx, idx *int64, from, to int) {
 		capped := false
 		sequences(lv.pos, func(s []string) {
 			if lv.skip != nil && lv.skip(s) {
+				return
+			}
+			if ModelOf(s).Open {
+				if c.Shard == 0 {
+					c.Extra("histories_skipped_result_left_open_by_the_statement", 1)
+				}
 				return
 			}
 			*idx++
@@ -1027,6 +1113,9 @@ type CrashHistory struct {
 	Upto int `json:"upto,omitempty"`
 	// AllTorn: torn images of every write (else only of the writes to the field-schema files).
 	AllTorn bool `json:"all_torn,omitempty"`
+	// ProbeField: the field of m the probe write addresses when the op in flight is not a single-field write
+	// ("" = f).
+	ProbeField string `json:"probe_field,omitempty"`
 }
 
 func (h CrashHistory) String() string {
@@ -1082,6 +1171,33 @@ func crashHistories(tier string) []CrashHistory {
 	// whatever the replay lost: so another measurement (m2) is recorded first in three of them.
 	for _, ops := range [][]string{{"W2", "WF", opDrop, "WF"}, {"W2", "WF", opDrop, "WI"}, {"W2", "WF", opDrop, "WG"}, {"WF", opDrop, "WI"}, {"WF", "W2", opDrop, "WF"}} {
 		hs = append(hs, CrashHistory{Name: "drop-recreate", Ops: ops, From: len(ops) - 1})
+	}
+	// multi-field points: m.f is float; a write whose points carry f as a string together with a NEW float field sorting
+	// before f (MA: a) / after f (MZ: z) is rejected; then an accepted write uses a new field alone (WA / WZ): from
+	// its acknowledgement on the field's type must be found by every recovery, and the probe write of another type to
+	// it must be rejected. Cuts of the rejected write, of the accepted one and after it; the third history adds a
+	// snapshot (the accepted values sit in a TSM file, the WAL segment is gone) and takes the cuts from the snapshot on.
+	for _, mh := range []CrashHistory{
+		{Name: "multi-field", Ops: []string{"WF", "MA", "WA"}, From: 1, ProbeField: "a"},
+		{Name: "multi-field", Ops: []string{"WF", "MZ", "WZ"}, From: 1, ProbeField: "z"},
+		{Name: "multi-field", Ops: []string{"WF", "MA", "WA", opSnapshot}, From: 3, ProbeField: "a"},
+	} {
+		hs = append(hs, mh)
+	}
+	if thorough {
+		for _, mh := range []CrashHistory{
+			{Name: "multi-field", Ops: []string{"WF", "MA", "WZ"}, From: 1, ProbeField: "z"}, // the accepted write creates its field itself
+			{Name: "multi-field", Ops: []string{"WF", "MZ", "WA"}, From: 1, ProbeField: "a"},
+			{Name: "multi-field", Ops: []string{"WS", "MA", "WA"}, From: 1, ProbeField: "a"}, // the multi-field write is accepted: two creation records in one change
+			{Name: "multi-field", Ops: []string{"WS", "MZ", "WZ"}, From: 1, ProbeField: "z"},
+			{Name: "multi-field", Ops: []string{"WF", "MZ", "WZ", opSnapshot}, From: 3, ProbeField: "z"},
+			{Name: "multi-field", Ops: []string{"WF", "MA", "WA", opReopen, "WA"}, From: 3, ProbeField: "a"}, // clean close folds the in-memory schema into fields.idx
+			{Name: "multi-field", Ops: []string{"W2", "WF", "MA", "WA"}, From: 2, ProbeField: "a"},
+			{Name: "multi-field", Ops: []string{"WF", "MA", "MA", "WA"}, From: 2, ProbeField: "a"},
+			{Name: "multi-field", Ops: []string{"WF", "MA", opDrop, "WA"}, From: 2, ProbeField: "a"},
+		} {
+			hs = append(hs, mh)
+		}
 	}
 	// field create (fields.idxl append), conflicting write (no record), second field, drop (deletion record), the
 	// same field again with another type, other measurement
@@ -1221,6 +1337,12 @@ func inflClass(ops []string, cx crashCtx) string {
 		return cx.Infl
 	}
 	before := ModelOf(ops[:cx.NAcked])
+	if ds := multiOps[cx.Infl]; ds != nil {
+		if ModelOf(ops[:cx.NAcked+1]).Fate[cx.NAcked] == "rejected" {
+			return "write-multi-field-conflicting"
+		}
+		return "write-multi-field"
+	}
 	d := writeOps[cx.Infl]
 	cur, ok := before.Schema[d.m][d.f]
 	switch {
@@ -1333,14 +1455,19 @@ func otherType(t string) string {
 
 // probeFor chooses the write made after the recovery: the field the op in flight touches (else m.f) with a type
 // different from the one recorded before the cut (else from the one the op in flight carries).
-func probeFor(ops []string, n int, infl string, before *Model) (m, f, typ string) {
+func probeFor(ops []string, n int, infl string, before *Model, probeField string) (m, f, typ string) {
 	m, f = "m", "f"
+	if probeField != "" {
+		f = probeField
+	}
 	if d, ok := writeOps[infl]; ok {
 		m, f = d.m, d.f
 		typ = otherType(d.typ)
 	}
 	if cur, ok := before.Schema[m][f]; ok {
 		typ = otherType(cur)
+	} else if mt, ok := before.Maybe[m][f]; ok {
+		typ = otherType(mt)
 	} else if typ == "" {
 		typ = "integer"
 	}
@@ -1381,7 +1508,7 @@ func sameRaw(a, b map[string][]shardkit.Val) bool {
 
 // CheckCrashRecovery is the recovery checker of the crash part. dir holds a crash image of the history ops taken
 // when ops[:n] were acknowledged and infl ("" = none) was in flight.
-func CheckCrashRecovery(dir string, o Options, ops []string, n int, infl string) (co CrashObs) {
+func CheckCrashRecovery(dir string, o Options, ops []string, n int, infl string, probeField string) (co CrashObs) {
 	before := ModelOf(ops[:n])
 	after := before
 	if infl != "" && infl != "open" {
@@ -1436,7 +1563,7 @@ func CheckCrashRecovery(dir string, o Options, ops []string, n int, infl string)
 		return fail("recovery", mm.Clause, mm.Msg)
 	}
 	// stage 2: a write of another type to the field in question, judged by the schema the shard settled on
-	pm, pf, pt := probeFor(ops, n, infl, before)
+	pm, pf, pt := probeFor(ops, n, infl, before, probeField)
 	k := len(ops) + 1
 	var specs []shardkit.PointSpec
 	for j := 1; j <= pointsPerWrite; j++ {
@@ -1458,6 +1585,16 @@ func CheckCrashRecovery(dir string, o Options, ops []string, n int, infl string)
 			got = "err:" + werr.Error()
 		}
 	}
+	// the probed field was new in a rejected multi-field point and no accepted write has used it: whether it exists is
+	// left open by the statement, so the probe is rejected (Dropped=2) iff the recovered shard records it
+	if mt, maybe := settled.Maybe[pm][pf]; maybe && mt != pt {
+		if _, definite := settled.Schema[pm][pf]; !definite {
+			want = "ok"
+			if rec, ok := ob.Schema[pm][pf]; ok && rec != pt {
+				want = fmt.Sprintf("conflict:%d", pointsPerWrite)
+			}
+		}
+	}
 	co.Probe = fmt.Sprintf("%s.%s as %s -> %s", pm, pf, pt, got)
 	if got != want {
 		g := resultKind(got)
@@ -1475,6 +1612,16 @@ func CheckCrashRecovery(dir string, o Options, ops []string, n int, infl string)
 		wantSchema[ms] = map[string]string{}
 		for f, t := range fs {
 			wantSchema[ms][f] = t
+		}
+	}
+	for ms, fs := range settled.Maybe { // open fields the recovered shard records (checked against Maybe at stage 1) stay as they are
+		for f := range fs {
+			if t, ok := ob.Schema[ms][f]; ok {
+				if wantSchema[ms] == nil {
+					wantSchema[ms] = map[string]string{}
+				}
+				wantSchema[ms][f] = t
+			}
 		}
 	}
 	if want == "ok" {
@@ -1545,11 +1692,12 @@ func CheckCrashRecovery(dir string, o Options, ops []string, n int, infl string)
 }
 
 type crashRecItem struct {
-	ID   string   `json:"id"`
-	Dir  string   `json:"dir"`
-	Ops  []string `json:"ops"`
-	N    int      `json:"acked"`
-	Infl string   `json:"in_flight"`
+	ID    string   `json:"id"`
+	Dir   string   `json:"dir"`
+	Ops   []string `json:"ops"`
+	N     int      `json:"acked"`
+	Infl  string   `json:"in_flight"`
+	Probe string   `json:"probe_field,omitempty"`
 }
 
 type crashRecJob struct {
@@ -1558,7 +1706,7 @@ type crashRecJob struct {
 }
 
 func crashRecoverOne(it crashRecItem) (o CrashObs) {
-	panicked, desc := vlib.Guard(func() { o = CheckCrashRecovery(it.Dir, crashOpts, it.Ops, it.N, it.Infl) })
+	panicked, desc := vlib.Guard(func() { o = CheckCrashRecovery(it.Dir, crashOpts, it.Ops, it.N, it.Infl, it.Probe) })
 	if panicked {
 		o = CrashObs{Panic: desc}
 	}
@@ -1747,7 +1895,7 @@ func runCrashRecovery(dir string, h CrashHistory, items []crashItem, timeout tim
 			return nil, "", fmt.Errorf("materialize %v: %w", it.im.Desc, err)
 		}
 		infl := it.cx.Infl
-		job.Items = append(job.Items, crashRecItem{ID: strconv.Itoa(i), Dir: d, Ops: h.Ops, N: it.cx.NAcked, Infl: infl})
+		job.Items = append(job.Items, crashRecItem{ID: strconv.Itoa(i), Dir: d, Ops: h.Ops, N: it.cx.NAcked, Infl: infl, Probe: h.ProbeField})
 	}
 	jb, _ := json.Marshal(job)
 	jp := filepath.Join(dir, "job.json")
@@ -1998,7 +2146,7 @@ func crashHistoryRun(c *vlib.Ctx, scratch string, h CrashHistory) (stop bool) {
 		}
 		ic := inflClass(h.Ops, cx)
 		dropAcked := ModelOf(h.Ops[:cx.NAcked]).Drops > 0
-		if dropAcked || ic == "write-new-field" || ic == opDrop {
+		if dropAcked || ic == "write-new-field" || ic == opDrop || strings.HasPrefix(ic, "write-multi-field") || len(ModelOf(h.Ops[:cx.NAcked]).Maybe["m"]) > 0 {
 			c.Nontrivial("crash|" + crashHistoryKey(h) + "|" + im.Desc.String())
 		}
 		res := "ok"
@@ -2137,11 +2285,12 @@ func TestCheck(t *testing.T) {
 	}
 	vlib.Main(t, &vlib.Check{
 		ID: "C10", Level: "model_checking",
-		Rule: "PART 1 histories (opseq): op alphabet {WF/WI/WS: write 2 points of m.f as float/integer/string, WG: m.g float, W2: m2.f integer, DM: DeleteMeasurement(m), SN: cache snapshot to TSM, RO: clean close+reopen, KR: kill-restart = copy of the live directory opened with the real open path}; quick: every sequence of length ≤3 over all 9 ops, the 16 sequences W2·{WF,WI,WS,WG}·DM·{WF,WI,WS,WG}·KR, every length-4 sequence over {WF,WI,DM,SN,RO,KR} starting with a write, every length-4 sequence write·{RO,KR,SN,DM}·{write,DM}·{RO,KR}; thorough: additionally length ≤3 with the default 8 tsi1 partitions and with INFLUXDB_SERIES_TYPE_CHECK_ENABLED, every length-4 sequence over all 9 ops starting with a write, every length-5 sequence over the 6 core ops starting with a write. Each history runs on a fresh real tsdb.Shard (tsm1 + tsi1 + series file + WAL; 1 tsi1 partition unless stated); every op result (error / PartialWriteError.Dropped) and the final recorded field types (MeasurementFieldSet), raw dump of all stored values and cursor reads are compared with a reference model; only the first divergence of a history is reported (all prefixes are enumerated). PART 2 schedules (vsched): 2 (thorough: one scenario with 3) real goroutines call Shard.WritePoints creating the same new field with different / equal types, from a fresh shard / a measurement that exists with another field [thorough: / a dropped measurement / series type check on]; every schedule with ≤ B preemptions (quick B=2 for float-vs-integer on a new measurement, 1 otherwise; thorough B=3 / 2) at the sync points of tsdb/shard.go, tsm1/engine.go, tsm1/cache.go, tsm1/ring.go kept by the filter (Shard.mu, MeasurementFieldSet.mu, change-log writer mutex, Engine.mu in WritePoints, Cache.mu in WriteMulti, ring partition lock); results + final schema/raw/cursor state must equal those of some sequential order of the writes. states = distinct (model schema, on-disk layout) of histories + decision nodes of the schedule trees; transitions = ops executed + scheduling steps; traces = histories + schedule executions. non-trivial = histories with a conflicting write or a restart after a drop; schedules with ≥1 preemption (distinct by construction). PART 3 crash points (crashfs; counted under the crash_* coverage keys and the crash:* outcomes, not under states/transitions/traces): histories over {WF, WI, WS, WG, W2, DM, SN, RO} performed by a writer subprocess (WriteHistory on a real shard with 1 tsi1 partition, GOMAXPROCS=1) under strace with BEGIN/ACK markers around the initial open of the empty directory and every op; the process exits without closing. Quick: 5 drop-recreate histories ([W2 WF DM WF], [W2 WF DM WI], [W2 WF DM WG], [WF DM WI], [WF W2 DM WF]: m2 first keeps the field set non-empty so that the engine does not rebuild it from the stored data at open; the change log holds create m.f, drop m, create again — replayed by an unclean restart; cuts of the last op incl. the one after its acknowledgement) and 3 hand-picked histories, every cut (create-conflict-drop [WF WI WG DM WS W2]: fields.idxl creation record, conflicting write, second field, deletion record, same field with another type, other measurement, plus the initial open; fold-drop-fold [WF W2 RO DM WI RO WG]: clean close folds fields.idxl into fields.idx (fields.idx.tmp written, renamed, fields.idxl removed), drop and create on top of a fields.idx that lists the measurement, second fold; snapshot-drop [WF SN DM WI SN RO]: drop after a snapshot (TSM tombstone + deletion record)), the 3 split into 13 work items by op window (each item re-records the history and evaluates the cuts of its ops). Thorough: the same with one work item per op, create-conflict-drop with the torn images of EVERY write (WAL, tsi1 log, series file, ...), drop-twice [WF WG DM DM WF RO DM RO WS], plus EVERY sequence of length 1..3 over the 7 ops {WF, WI, WG, W2, DM, SN, RO} and of length 4 over {WF, WI, W2, DM} (cuts of the last op only, so every (prefix, cut) is evaluated once). Per history every prefix of the syscall-level event list (P: crash between any two syscalls of any file of the shard tree) and every torn length 1..n-1 of the writes to fields.idxl / fields.idx.tmp / fields.idx (T); no U images (process death; see assumptions). One evaluation = one (image, acknowledgement context) recovered in a fresh subprocess by CheckCrashRecovery: real series file + Shard.Open on the image; recorded field types, raw stored values, cursor reads; one probe write of ANOTHER type to the field of the op in flight (else m.f); second process death (directory copied without closing) + open; everything read again. Crash oracle: the shard opens; recorded field types = those of the acknowledged ops or of acknowledged ops + op in flight (as a whole); an acknowledged DeleteMeasurement leaves no field of m; stored values ⊇ those in both states and ⊆ those in either; no cursor read error; every stored value has the type recorded for its field; the probe write is rejected with Dropped=2 iff the recovered schema holds the field with another type, and is stored iff accepted; after the second restart field types and stored values are exactly those before it (a drop is not resurrected). Non-trivial crash case = a drop acknowledged before the cut, or a drop / field-creating write in flight",
+		Rule: "PART 1 histories (opseq): op alphabet {WF/WI/WS: write 2 points of m.f as float/integer/string, WG: m.g float, W2: m2.f integer, DM: DeleteMeasurement(m), SN: cache snapshot to TSM, RO: clean close+reopen, KR: kill-restart = copy of the live directory opened with the real open path}; quick: every sequence of length ≤3 over all 9 ops, the 16 sequences W2·{WF,WI,WS,WG}·DM·{WF,WI,WS,WG}·KR, every length-4 sequence over {WF,WI,DM,SN,RO,KR} starting with a write, every length-4 sequence write·{RO,KR,SN,DM}·{write,DM}·{RO,KR}, and the multi-field level {WF,WS}·{MA,MZ}·{WA,WZ}·{KR,RO,SN}·{PA,PZ} (MA / MZ: 2 points carrying m.f as a string TOGETHER WITH a new float field sorting before f (a) / after f (z): rejected with Dropped=2 when m.f is float, accepted when it is a string; WA / WZ: m.a / m.z float alone; PA / PZ: m.a / m.z as integer, which must be rejected with Dropped=2 once an accepted write has used the field; 48 sequences minus the 6 whose last write addresses a field that only a rejected point carried — the statement leaves open whether such a field is recorded, the model keeps it as 'maybe' and accepts both answers in the schema comparison); thorough: the heads {WF,WS}·{MA,MZ} followed by EVERY sequence of length 1..3 over {WA,WZ,PA,PZ,KR,RO,SN} (minus those left open), additionally length ≤3 with the default 8 tsi1 partitions and with INFLUXDB_SERIES_TYPE_CHECK_ENABLED, every length-4 sequence over all 9 ops starting with a write, every length-5 sequence over the 6 core ops starting with a write. Each history runs on a fresh real tsdb.Shard (tsm1 + tsi1 + series file + WAL; 1 tsi1 partition unless stated); every op result (error / PartialWriteError.Dropped) and the final recorded field types (MeasurementFieldSet), raw dump of all stored values and cursor reads are compared with a reference model; only the first divergence of a history is reported (all prefixes are enumerated). PART 2 schedules (vsched): 2 (thorough: one scenario with 3) real goroutines call Shard.WritePoints creating the same new field with different / equal types, from a fresh shard / a measurement that exists with another field [thorough: / a dropped measurement / series type check on]; every schedule with ≤ B preemptions (quick B=2 for float-vs-integer on a new measurement, 1 otherwise; thorough B=3 / 2) at the sync points of tsdb/shard.go, tsm1/engine.go, tsm1/cache.go, tsm1/ring.go kept by the filter (Shard.mu, MeasurementFieldSet.mu, change-log writer mutex, Engine.mu in WritePoints, Cache.mu in WriteMulti, ring partition lock); results + final schema/raw/cursor state must equal those of some sequential order of the writes. states = distinct (model schema, on-disk layout) of histories + decision nodes of the schedule trees; transitions = ops executed + scheduling steps; traces = histories + schedule executions. non-trivial = histories with a conflicting write or a restart after a drop; schedules with ≥1 preemption (distinct by construction). PART 3 crash points (crashfs; counted under the crash_* coverage keys and the crash:* outcomes, not under states/transitions/traces): histories over {WF, WI, WS, WG, W2, DM, SN, RO, MA, MZ, WA, WZ} performed by a writer subprocess (WriteHistory on a real shard with 1 tsi1 partition, GOMAXPROCS=1) under strace with BEGIN/ACK markers around the initial open of the empty directory and every op; the process exits without closing. Quick: 5 drop-recreate histories ([W2 WF DM WF], [W2 WF DM WI], [W2 WF DM WG], [WF DM WI], [WF W2 DM WF]: m2 first keeps the field set non-empty so that the engine does not rebuild it from the stored data at open; the change log holds create m.f, drop m, create again — replayed by an unclean restart; cuts of the last op incl. the one after its acknowledgement) 3 multi-field histories ([WF MA WA] and [WF MZ WZ]: cuts of the rejected multi-field write, of the accepted write of the new field alone and after it; [WF MA WA SN]: cuts of the snapshot; probe write = the new field as integer) and 3 hand-picked histories, every cut (create-conflict-drop [WF WI WG DM WS W2]: fields.idxl creation record, conflicting write, second field, deletion record, same field with another type, other measurement, plus the initial open; fold-drop-fold [WF W2 RO DM WI RO WG]: clean close folds fields.idxl into fields.idx (fields.idx.tmp written, renamed, fields.idxl removed), drop and create on top of a fields.idx that lists the measurement, second fold; snapshot-drop [WF SN DM WI SN RO]: drop after a snapshot (TSM tombstone + deletion record)), the 3 split into 13 work items by op window (each item re-records the history and evaluates the cuts of its ops). Thorough: the same with one work item per op, create-conflict-drop with the torn images of EVERY write (WAL, tsi1 log, series file, ...), drop-twice [WF WG DM DM WF RO DM RO WS], 9 more multi-field histories ([WF MA WZ], [WF MZ WA], [WS MA WA], [WS MZ WZ], [WF MZ WZ SN], [WF MA WA RO WA], [W2 WF MA WA], [WF MA MA WA], [WF MA DM WA]; cuts from the op after the multi-field write on), plus EVERY sequence of length 1..3 over the 7 ops {WF, WI, WG, W2, DM, SN, RO} and of length 4 over {WF, WI, W2, DM} (cuts of the last op only, so every (prefix, cut) is evaluated once). Per history every prefix of the syscall-level event list (P: crash between any two syscalls of any file of the shard tree) and every torn length 1..n-1 of the writes to fields.idxl / fields.idx.tmp / fields.idx (T); no U images (process death; see assumptions). One evaluation = one (image, acknowledgement context) recovered in a fresh subprocess by CheckCrashRecovery: real series file + Shard.Open on the image; recorded field types, raw stored values, cursor reads; one probe write of ANOTHER type to the field of the op in flight (else m.f; multi-field histories: else the new field); second process death (directory copied without closing) + open; everything read again. Crash oracle: the shard opens; recorded field types = those of the acknowledged ops or of acknowledged ops + op in flight (as a whole); an acknowledged DeleteMeasurement leaves no field of m; stored values ⊇ those in both states and ⊆ those in either; no cursor read error; every stored value has the type recorded for its field; the probe write is rejected with Dropped=2 iff the recovered schema holds the field with another type, and is stored iff accepted (a field that only a rejected multi-field point carried may be recorded or not; once an accepted write used it, it must be recorded); after the second restart field types and stored values are exactly those before it (a drop is not resurrected). Non-trivial crash case = a drop acknowledged before the cut, or a drop / field-creating write / multi-field write in flight, or a rejected multi-field write acknowledged before the cut",
 		Assumptions: []string{
 			"a kill-restart image is the directory tree as the page cache holds it while the process is alive and idle (every completed write(2) present); torn / unsynced images belong to the crash part (crashfs)",
 			"background compactions and the automatic cache snapshotter are off; snapshots are taken by the SN op",
 			"dropping a measurement that does not exist is a successful no-op",
+			"multi-field points: the statement rejects the whole point when one of its fields conflicts and is silent on whether the point's other, NEW fields become recorded by the attempt; the model accepts both until an accepted write uses such a field (then it is recorded for good) and the enumerations skip histories whose write result depends on the open answer",
 			"deep levels use INFLUXDB_EXP_TSI_PARTITIONS=1-equivalent (tsi1.DefaultPartitionN=1): the field schema does not depend on the index partitioning (length ≤1 quick / ≤3 thorough is repeated with the default 8)",
 			"schedules: sequentially consistent interleavings at lock/atomic granularity; sync.Map operations (gensyncmap LoadOrStore) are atomic steps without a scheduling point of their own",
 			"crash part: process-death model — ordered metadata, every completed write(2) present, the write in flight torn at any byte (field-schema files; thorough: one history with every file); data is never dropped back to the last fsync (no U images): tsdb/shard.go promises no fsync-before-acknowledge for fields.idx/fields.idxl (they are opened O_SYNC), and WAL/TSM/index durability belongs to C02/C14",
@@ -2153,7 +2302,7 @@ func TestCheck(t *testing.T) {
 		Run: func(c *vlib.Ctx) {
 			// order: short histories (length ≤ 3), then the schedules, then the deeper history levels, so that
 			// a capped run still covers both quantifiers
-			const shallow = 5 // number of leading levels run before the schedules: length ≤ 3 and the 16 drop-recreate-kill sequences (same in both tiers)
+			const shallow = 6 // number of leading levels run before the schedules: length ≤ 3, the 16 drop-recreate-kill sequences and the multi-field level (same in both tiers)
 			var idx int64
 			part := os.Getenv("C10_PART")
 			if part == "" || part == "crash" {
